@@ -90,6 +90,8 @@ impl Interpreter {
     }
 
     pub fn from_transaction_and_script_bits(tx: Transaction, txin: usize, script_bits: Vec<ScriptBit>) -> Interpreter {
+        // A script assembled element by element runs like the same script read from its bytes
+        let script_bits = Script::nest_conditionals(script_bits);
         Interpreter {
             script_positions: Interpreter::written_positions(&script_bits, 0),
             script_bits,
@@ -134,9 +136,11 @@ impl Interpreter {
 /// Both WASM and Rust functionality
 impl Interpreter {
     pub fn from_script(script: &Script) -> Interpreter {
+        // A script assembled element by element runs like the same script read from its bytes
+        let script_bits = Script::nest_conditionals(script.to_script_bits());
         Interpreter {
-            script_positions: Interpreter::written_positions(&script.to_script_bits(), 0),
-            script_bits: script.to_script_bits(),
+            script_positions: Interpreter::written_positions(&script_bits, 0),
+            script_bits,
             script_index: 0,
             state: State::default(),
             tx_script: None,
